@@ -36,6 +36,8 @@ enum Fault {
     ForNonList,
     UndefinedScopedViaLet,
     ConflictAcrossIterations,
+    ScopedReadOnGraphNode,
+    ScopedDefinitionOnGraphNode,
 }
 
 const FAULTS: &[Fault] = &[
@@ -52,6 +54,8 @@ const FAULTS: &[Fault] = &[
     Fault::ForNonList,
     Fault::UndefinedScopedViaLet,
     Fault::ConflictAcrossIterations,
+    Fault::ScopedReadOnGraphNode,
+    Fault::ScopedDefinitionOnGraphNode,
 ];
 
 impl Fault {
@@ -70,6 +74,8 @@ impl Fault {
             Fault::ForNonList => "for_non_list",
             Fault::UndefinedScopedViaLet => "undefined_scoped_variable_via_let",
             Fault::ConflictAcrossIterations => "conflict_across_loop_iterations",
+            Fault::ScopedReadOnGraphNode => "scoped_read_on_graph_node",
+            Fault::ScopedDefinitionOnGraphNode => "scoped_definition_on_graph_node",
         }
     }
     /// conflicts between two statements
@@ -121,6 +127,12 @@ fn fault_stmts(f: Fault, cap: Option<&str>) -> Option<Vec<GStmt>> {
                 vec![stmt(StmtKind::AttrNode(n(), vec![a("zq_a", GExpr::var("zq_x"))])), stmt(StmtKind::Let(GVar::u("zq_after"), GExpr::var("zq_x")))],
             )),
         ],
+        Fault::ScopedReadOnGraphNode => vec![
+            stmt(StmtKind::Node(GVar::u("zq_n"))),
+            stmt(StmtKind::Node(GVar::u("zq_m"))),
+            stmt(StmtKind::AttrNode(GExpr::var("zq_m"), vec![a("zq_a", GExpr::scoped(n(), "zq_tag"))])),
+        ],
+        Fault::ScopedDefinitionOnGraphNode => vec![stmt(StmtKind::Node(GVar::u("zq_n"))), stmt(StmtKind::Let(GVar::s(n(), "zq_tag"), GExpr::Int(1)))],
         Fault::TypeErrorViaLet => vec![stmt(StmtKind::Node(GVar::u("zq_n"))), stmt(StmtKind::Let(GVar::u("zq_v"), GExpr::call("not", vec![GExpr::Int(3)]))), stmt(StmtKind::AttrNode(n(), vec![a("zq_a", GExpr::var("zq_v"))]))],
     })
 }
@@ -140,6 +152,8 @@ fn fault_positions(f: Fault) -> (usize, Option<usize>) {
         Fault::ForNonList => (1, None),
         // node, for, attr, let: the attr statement conflicts with itself in the next iteration
         Fault::ConflictAcrossIterations => (2, Some(2)),
+        Fault::ScopedReadOnGraphNode => (2, None),
+        Fault::ScopedDefinitionOnGraphNode => (1, None),
     }
 }
 
